@@ -241,11 +241,24 @@ func runC20(c *Ctx) {
 			key := core.FuncName(fn)
 			if toDT {
 				calls := core.FindCalls(fn, isTimeMethod("UnixNano"))
-				if len(core.FindCalls(fn, isTimeMethod("Unix")))+len(calls) == 0 {
+				takesTime := false
+				for _, pr := range fn.Params {
+					if core.IsNamed(pr.Type(), "time", "Time") {
+						takesTime = true
+					}
+				}
+				if !takesTime {
 					continue
 				}
 				n++
 				bad := false
+				// a time.Duration between two instants saturates at about 292 years as well
+				for _, cl := range core.FindCalls(fn, func(f *types.Func) bool {
+					return isTimeMethod("Sub")(f) || core.IsFunc(f, "time", "Since") || core.IsFunc(f, "time", "Until")
+				}) {
+					bad = true
+					c.R.Bad(rule, key, cfg, p.Pos(cl.Pos()), "the conversion goes through a time.Duration between two instants, which silently saturates at about 292 years: every instant after 2262-04-11 (inside the documented range up to 2299) collapses to the same value")
+				}
 				for _, cl := range calls {
 					// unconditional: dominates every non-zero-return path => not guarded by a range test
 					guarded := false
@@ -483,6 +496,88 @@ func runC20(c *Ctx) {
 		}
 		if n == 0 {
 			c.R.Ok(rule, "proto", cfg, "", "no remainder is adjusted additively in package proto").Trivial = true
+		}
+	}()
+
+	// ---- C20.clamp
+	rule = "C20.clamp"
+	c.R.Rule(rule, "saturating conversions in package proto: when a function returning a named integer scalar (DateTime, Date, Date32, ...) clamps - `x > K -> return C` / `x < K -> return C` with constants - the bound and the returned value are the extreme of the result type's underlying integer (MaxUint32 for a uint32, not MaxInt32): a tighter bound silently maps the upper part of the documented range to one value")
+	func() {
+		n := 0
+		for _, fn := range p.Funcs() {
+			if pkgOf(fn) == nil || pkgOf(fn).Path() != core.PkgProto || fn.Signature.Results().Len() != 1 || fn.Blocks == nil {
+				continue
+			}
+			rt := fn.Signature.Results().At(0).Type()
+			bt, ok := rt.Underlying().(*types.Basic)
+			if !ok || bt.Info()&types.IsInteger == 0 || core.NamedOf(rt) == nil {
+				continue
+			}
+			var lo, hi int64
+			var hiU uint64
+			switch bt.Kind() {
+			case types.Uint8:
+				hiU = 1<<8 - 1
+			case types.Uint16:
+				hiU = 1<<16 - 1
+			case types.Uint32:
+				hiU = 1<<32 - 1
+			case types.Int8:
+				lo, hi = -1<<7, 1<<7-1
+			case types.Int16:
+				lo, hi = -1<<15, 1<<15-1
+			case types.Int32:
+				lo, hi = -1<<31, 1<<31-1
+			default:
+				continue
+			}
+			if hiU != 0 {
+				hi = int64(hiU)
+			}
+			for _, b := range fn.Blocks {
+				ifi, ok := b.Instrs[len(b.Instrs)-1].(*ssa.If)
+				if !ok {
+					continue
+				}
+				bo, ok := ifi.Cond.(*ssa.BinOp)
+				if !ok {
+					continue
+				}
+				k, okc := core.ConstInt(bo.Y)
+				if !okc || (bo.Op != token.GTR && bo.Op != token.GEQ && bo.Op != token.LSS && bo.Op != token.LEQ) {
+					continue
+				}
+				tb := b.Succs[0]
+				ret, ok := tb.Instrs[len(tb.Instrs)-1].(*ssa.Return)
+				if !ok || len(tb.Instrs) > 2 {
+					continue
+				}
+				cv, okv := core.ConstInt(stripConv(ret.Results[0]))
+				if !okv {
+					continue
+				}
+				upper := bo.Op == token.GTR || bo.Op == token.GEQ
+				if upper && cv == 0 || !upper && cv != 0 && cv != lo {
+					// `x > K -> return 0`-style special cases are not clamps
+					if !(upper && cv == k) && !(!upper && cv == k) {
+						continue
+					}
+				}
+				n++
+				key := sprintf("%s/clamp#%d", core.FuncName(fn), n)
+				want := hi
+				if !upper {
+					want = lo
+				}
+				if cv == want && (k == want || bo.Op == token.GEQ && k == want || bo.Op == token.LEQ && k == want) {
+					c.R.Ok(rule, key, cfg, p.Pos(ifi.Cond.Pos()), sprintf("clamps at the extreme of %s", bt.Name()))
+				} else {
+					c.R.Bad(rule, key, cfg, p.Pos(ifi.Cond.Pos()), sprintf("values %s %d are mapped to %d, but %s (%s) reaches %d: part of the documented range collapses to one value", bo.Op, k, cv, core.NamedOf(rt).Obj().Name(), bt.Name(), want))
+				}
+			}
+		}
+		if n == 0 {
+			c.R.Ok(rule, "proto", cfg, "", "no saturating conversion in package proto").Trivial = true
 		}
 	}()
 
